@@ -194,6 +194,9 @@ type val struct {
 
 type abortEval struct{ why string }
 
+// outOfModel: the definitional evaluator (int64) cannot represent a value of this case.
+type outOfModel struct{}
+
 type evaluator struct{ log []int }
 
 func (e *evaluator) abort(why string) { panic(abortEval{why}) }
@@ -307,8 +310,11 @@ func (e *evaluator) eval(n *node, base int) val {
 		if a[1].i < 0 {
 			e.abort("negative shift")
 		}
-		if a[1].i > 40 {
-			e.abort("harness: shift too large for the model")
+		if a[0].i != 0 && (a[1].i > 40 || a[0].i > 1<<20 || a[0].i < -(1<<20)) {
+			panic(outOfModel{}) // the int64 model cannot represent the result: the case is dropped from the space
+		}
+		if a[1].i > 62 {
+			return vI(0) // 0 << n, 0 >> n
 		}
 		if n.Op == "I<<" {
 			return vI(a[0].i << uint(a[1].i))
